@@ -10,19 +10,32 @@ from harness import impl as I
 
 
 def family_source(fam: dict) -> str:
-    """aliases first, then the functions in decoration order."""
+    """aliases first, then the functions in decoration order.  With fam["lazy"]: one decorator OBJECT per provider shared by
+    the functions, alias-typed parameters annotated by the alias's NAME in quotes, and the aliases defined after the functions -
+    the hints cannot be resolved at decoration time and are resolved on the first call of each function."""
     lines = []
-    for name, h in fam["aliases"].items():
-        lines.append(f"{name} = {I.hint_src(h)}")
+    lazy = bool(fam.get("lazy"))
+    alias_lines = [f"{name} = {I.hint_src(h)}" for name, h in fam["aliases"].items()]
+    if lazy:
+        provs = sorted({f.get("provider") for f in fam["functions"]}, key=str)
+        for pr in provs:
+            lines.append(f"DECO_{pr} = " + ("dltype.dltyped()" if pr is None else f"dltype.dltyped(PROVIDERS[{pr!r}])"))
+    else:
+        lines += alias_lines
     by_name = {f["name"]: f for f in fam["functions"]}
+
+    def ann(p):
+        src = param_src(p)
+        return repr(src) if (lazy and "alias" in p) else src
+
     for fname in fam["order"]:
         f = by_name[fname]
         params = []
         for p in f["params"]:
-            params.append(f"{p['name']}: {param_src(p)}")
-        ret = f" -> {param_src(f['ret'])}" if f.get("ret") else ""
+            params.append(f"{p['name']}: {ann(p)}")
+        ret = f" -> {ann(f['ret'])}" if f.get("ret") else ""
         prov = f.get("provider")
-        deco = "dltype.dltyped()" if prov is None else f"dltype.dltyped(PROVIDERS[{prov!r}])"
+        deco = f"DECO_{prov}" if lazy else ("dltype.dltyped()" if prov is None else f"dltype.dltyped(PROVIDERS[{prov!r}])")
         # the value to return is fixed on entry: an inner (recursive) call of the same function sets its own
         body = [f"    _rv = RET[{fname!r}][threading.get_ident()] if threading.get_ident() in RET[{fname!r}] else RET[{fname!r}][0]",
                 f"    LOG.append(({fname!r}, threading.get_ident()))"]
@@ -33,6 +46,8 @@ def family_source(fam: dict) -> str:
             body.append(f"    if not getattr(DEPTH, 'inner', False):\n        INNER_RESULTS.append(run_inner({inner['fn']!r}, {inner['step']}))")
         body.append("    return _rv")
         lines.append(f"@{deco}\ndef {fname}({', '.join(params)}){ret}:\n" + "\n".join(body) + "\n")
+    if lazy:
+        lines += alias_lines
     return "\n".join(lines)
 
 
